@@ -45,7 +45,7 @@ func (c *faultCase) Run() string {
 }
 
 func (c *faultCase) Line() string {
-	if c.Fault == "kill" {
+	if c.Fault == "kill" || c.Fault == "panic" {
 		return ""
 	}
 	c.pipeCase.out = c.outcome()
@@ -78,6 +78,34 @@ func (c *faultCase) Oracle(out string) string {
 			}
 			if !seen {
 				return "after the process died in " + pkg + " the next run skipped that package as cached"
+			}
+		}
+		return ""
+	}
+	if c.Fault == "panic" {
+		if !strings.HasPrefix(o.Result, "panic:") {
+			if o.Result == "ok" {
+				return "" // not reached
+			}
+			return "a generator panic surfaced as " + o.Result
+		}
+		// a run that dies unwinding a panic is a process death: gengo.sum untouched, the package's files as they were
+		prev := "none"
+		if o.HasPrev {
+			prev = hx(o.PrevSum)
+		}
+		if o.Sum != prev {
+			return "the run died with a panic inside GenerateType and gengo.sum was rewritten while unwinding"
+		}
+		pkgDir := ""
+		for _, p := range c.S.Pkgs {
+			if strings.Contains(c.At, "@"+p.path()+"@") {
+				pkgDir = p.Dir
+			}
+		}
+		for rel, b := range o.Before {
+			if filepath.Dir(rel) == pkgDir && o.After[rel] != b {
+				return "the run died with a panic in package " + pkgDir + " and " + rel + " was changed"
 			}
 		}
 		return ""
@@ -157,7 +185,7 @@ func faultVariants(base PScn, yield func(*faultCase)) {
 		for _, g := range base.Gens {
 			for _, call := range base.expectedCalls(pi, g) {
 				key := strings.TrimSuffix(call, "!")
-				for _, f := range []struct{ fault, code string }{{"error", "fv-"}, {"defer", "ove"}, {"syntax", "ox-"}, {"kill", ""}} {
+				for _, f := range []struct{ fault, code string }{{"error", "fv-"}, {"defer", "ove"}, {"syntax", "ox-"}, {"panic", "pv-"}, {"kill", ""}} {
 					n := cloneScn(base)
 					if f.fault == "kill" {
 						n.Kill = key
@@ -906,7 +934,7 @@ func init() {
 				}
 			},
 			BatchRun: faultBatch, ShrinkBudget: 60, MaxShrinks: 4,
-			Rule: "fault enumeration: for each of 30 (quick) / 300 (thorough) fault-free base scenarios (≤ 3 packages, pre-existing outputs, previous gengo.sum variants, All mostly on) one variant per enabled GenerateType/GenerateAliasType call and per fault kind {generator error, failing deferred callback, unparseable rendering, os.Exit inside the call}; compared with the model: result, files, sum; oracle: error names generator+package or the syntax position, the failing generator's previous file byte-identical, gengo.sum byte-identical, and after a process death the next run regenerates the package",
+			Rule: "fault enumeration: for each of 30 (quick) / 300 (thorough) fault-free base scenarios (≤ 3 packages, pre-existing outputs, previous gengo.sum variants, All mostly on) one variant per enabled GenerateType/GenerateAliasType call and per fault kind {generator error, failing deferred callback, unparseable rendering, run-time panic in the generator, os.Exit inside the call}; compared with the model: result, files, sum; oracle: error names generator+package or the syntax position, the failing generator's previous file byte-identical, gengo.sum byte-identical, and after a process death the next run regenerates the package",
 		},
 	}})
 	register(&Property{ID: "C05", Streams: []*Stream{
